@@ -354,6 +354,7 @@ class Interp(ExprMixin, CallMixin):
                 fr.env[n] = ListV(va.items, va.complete and vb.complete)
             else:
                 fr.env[n] = Sym('phi', va, vb)
+                fr.env[n].cond = cond
         fr.yields_complete = fr.yields_complete and getattr(a, 'yields_complete', True) and getattr(b, 'yields_complete', True)
 
     def s_If(self, st, fr):
